@@ -396,6 +396,31 @@ func runC05(seed int64, n int, tier string, outDir string) (*Report, error) {
 			cw.Add("("+hx(text)+", Ok "+CoqItem(y)+")", "one-property "+t)
 		}
 	}
+	// directed: instants at month ends, leap days, and with a field out of range (model and code must agree on which
+	// texts are instants at all; a valid one must come back as that instant)
+	for _, ts := range []string{"2016-02-29T12:00:00Z", "2015-02-29T12:00:00Z", "2000-02-29T00:00:00Z", "1900-02-29T00:00:00Z", "2016-07-31T20:24:57Z", "2016-04-31T00:00:00Z",
+		"2016-04-30T23:59:59+02:00", "2023-12-31T23:59:59-11:30", "2023-01-01T00:00:00+14:00", "2023-13-01T00:00:00Z", "2023-00-10T00:00:00Z", "2023-05-00T00:00:00Z",
+		"2023-05-10T24:00:00Z", "2023-05-10T23:60:00Z", "2023-05-10T23:59:60Z", "2023-05-10T23:59:59+24:00", "2023-05-10T23:59:59+01:60", "2023-05-10T23:59:59+25:00", "2023-05-10T23:59:59-01:61", "1969-12-31T23:59:59Z", "0001-01-01T00:00:00Z", "9999-12-31T23:59:59Z"} {
+		for _, term := range []string{"published", "updated", "startTime", "endTime"} {
+			text := []byte(`{"type":"Note","id":"https://example.com/t","` + term + `":"` + ts + `"}`)
+			y, err := ap.UnmarshalJSON(text)
+			rep.Evaluations++
+			rep.Count("directed-instant")
+			if want, perr := time.Parse(time.RFC3339, ts); perr == nil && err == nil {
+				var got time.Time
+				_ = ap.OnObject(y, func(o *ap.Object) error {
+					got = map[string]time.Time{"published": o.Published, "updated": o.Updated, "startTime": o.StartTime, "endTime": o.EndTime}[term]
+					return nil
+				})
+				if !got.Equal(want) {
+					rep.Violate(Violation{Op: "decode reads what the document says", Input: string(text), Expected: want.UTC().String(), Observed: got.UTC().String()})
+				}
+			}
+			if err == nil {
+				cw.Add("("+hx(text)+", Ok "+CoqItem(y)+")", "instant "+ts)
+			}
+		}
+	}
 	// mocks
 	mocks, _ := filepath.Glob(filepath.Join(repoDir(), "tests", "mocks", "*.json"))
 	sort.Strings(mocks)
